@@ -27,6 +27,7 @@ fn main() {
                 std::process::exit(2)
             }
         },
+        "once" => std::process::exit(jpv::props::c12::once_main()),
         "probe" => {
             let n: usize = args.get(3).and_then(|s| s.parse().ok()).unwrap_or(1);
             std::process::exit(jpv::props::c08::probe_main(&args[2], n))
